@@ -27,10 +27,16 @@ type vPart struct{ id, n int }
 // (pending batch + what still fits) and the last chunk can both be smaller than min_size.
 type vBReq struct{ parts []vPart }
 
+// vSamples: the request counts like a profiles request - the items sizer counts SAMPLES while the indivisible unit is a
+// whole profile of several samples, so ItemsCount() is the sum of the unit sizes (set per case; cases run one at a time)
+var vSamples bool
+
 func (r *vBReq) ItemsCount() int {
 	n := 0
 	for _, p := range r.parts {
-		if p.n > 0 {
+		if vSamples {
+			n += p.n
+		} else if p.n > 0 {
 			n++
 		}
 	}
@@ -150,8 +156,19 @@ func TestVerifC04Batcher(t *testing.T) {
 				vRunDisabled(out, c, rnd, rec)
 				return
 			}
+			// the sizer TYPE the batcher is configured with: bytes (units of several bytes), items with one-item units, or
+			// items with multi-sample indivisible units (profiles: pending batch + a profile that does not fit => MergeSplit
+			// returns the pending batch unchanged followed by the new request)
+			sizerType := request.SizerTypeBytes
+			vSamples = false
+			if c%3 == 1 {
+				sizerType = request.SizerTypeItems
+			} else if c%6 == 2 {
+				sizerType = request.SizerTypeItems
+				vSamples = true
+			}
 			qb := newDefaultBatcher(cfg, batcherSettings[request.Request]{
-				sizerType: request.SizerTypeBytes,
+				sizerType: sizerType,
 				sizer:     request.BaseSizer{SizeofFunc: func(r request.Request) int64 { return r.(*vBReq).size() }},
 				next: func(_ context.Context, req request.Request) error {
 					f := &vFlight{parts: req.(*vBReq).String(), release: make(chan error)}
@@ -168,6 +185,9 @@ func TestVerifC04Batcher(t *testing.T) {
 			out.Linef("case %d", c)
 			out.Linef("op cfg min=%d max=%d", minSize, maxSize)
 			out.Linef("obs done")
+			if vSamples {
+				out.Linef("stat profiles_mode 1")
+			}
 			flights := map[int]*vFlight{}
 			var open []int
 			nextF := 0
